@@ -2,6 +2,7 @@
 import subprocess, concurrent.futures
 from vlib import *
 import tracecheck as tc
+import factory
 
 PKG = "pkg/eni"
 
@@ -90,6 +91,11 @@ def tags(t):
 
 def run(ctx, prop, relevant):
     q = ctx.quick
+    # the layer below the pool: the real cloud factory (pkg/factory/aliyun) on the real OpenAPI client and metadata reader with
+    # only the HTTP transports faked, judged on this property's clauses pushed down to the cloud boundary (specs/Factory.tla,
+    # props/factory.py). It runs in its own thread next to the pool stages; its violations are added to ctx like the others.
+    fex = concurrent.futures.ThreadPoolExecutor(max_workers=1)
+    ffut = fex.submit(factory.stage, ctx, prop) if os.environ.get("VERIF_FACTORY", "1") != "0" else None
     mc = tlc_mc(ctx, "NodePool_mc", "NodePool_mc.cfg" if q else "NodePool_mc_thorough.cfg", timeout=3000, coverage=not q)
     # the dual-stack closure (one interface, both families)
     mc6 = tlc_mc(ctx, "NodePool_mc", "NodePool_mc_dual.cfg" if q else "NodePool_mc_dual_thorough.cfg", timeout=3000)
@@ -143,9 +149,17 @@ def run(ctx, prop, relevant):
                     "optional trunk and dual stack; every scenario ends with a drain and a quiescent observation; non-trivial = "
                     "trace carries one of the tags %s; distinct by trace hash" % sorted(relevant),
                samples=[strip(traces[0])[:14]], coverage_zero_actions=mc.coverage_zero, exhaustive=False)
-    return finish(ctx, "model_checking", cov, [
-        "the cloud is a fake factory.Factory whose state mirrors NodePool.tla's cloud variable; quotas are not enforced by the fake, only judged",
-        "error-after-effect results carry the created object (the contract of pkg/factory/aliyun)",
+    extra = []
+    if ffut is not None:
+        fc = ffut.result()          # a MachineryError of the factory stage propagates (exit 2)
+        cov["factory_layer"] = {k: v for k, v in fc.items() if k not in ("samples",)}
+        cov["traces_validated_against_impl"] = len(traces) + fc["traces"]
+        cov["states"] += fc["states"]
+        cov["transitions"] += fc["transitions"]
+        extra = ["factory layer: " + a for a in factory.ASSUMPTIONS]
+    return finish(ctx, "model_checking", cov, extra + [
+        "the pool stages run on a fake factory.Factory whose state mirrors NodePool.tla's cloud variable; quotas are not enforced by the fake, only judged",
+        "error-after-effect results carry the created object (the contract of pkg/factory/aliyun, itself checked by the factory layer)",
         "'held' is what Manager.Allocate returned to the caller and not yet passed to Manager.Release",
         "a hand-out is valid if the address was live at some instant between the call and its return",
         "the pool's 300 ms factory sleep is paid; rate limiters are replaced by fast ones as in the repository's own tests; inhibit timers are cleared by the driver"])
